@@ -341,5 +341,5 @@ def weights_arg(records, rows, wspec, row_weights):
     if wspec == "one":
         return None
     if wspec == "array":
-        return np.array([float(w) for w in row_weights], dtype=np.float64)
+        return np.array([float(w) for w in row_weights], dtype=np.float64)  # "nan" decodes to NaN
     return float(wspec)
